@@ -4,7 +4,7 @@ From Coq Require Import String List NArith ZArith Bool.
 From J5V.lib Require Import Outcome.
 From J5V.model Require Import ReflectDesc ReflectSchema Reflect ReflectSpec.
 From J5V.gen Require ReflectGen.
-From J5V.proofs Require Import ReflectProofs ExportProofs ReflectInvProofs ReflectPathProofs ReflectFuelProofs ReflectFlattenProofs.
+From J5V.proofs Require Import ReflectProofs ExportProofs ReflectInvProofs ReflectPathProofs ReflectFuelProofs ReflectFlattenProofs ReflectCodecProofs.
 From J5V.model Require Import Export.
 Import ListNotations.
 
@@ -84,6 +84,55 @@ Theorem C18_client_properties_terminate : forall D fs S,
   forall k r, lookup S k = Some (Linked r) -> exists out, client_props_of S r = Ok out.
 Proof. exact reflect_client_props_terminate. Qed.
 Print Assumptions C18_client_properties_terminate.
+
+(* ---- last clause, first half ("the codec can encode and decode an empty message of every reflected
+   type"): for every descriptor set with distinct split names and distinct field numbers per message,
+   after a successful reflection newPropSet succeeds on the root of every message: ClientProperties
+   returns and the proto path of every client property (through any depth of flattening) resolves in
+   the message descriptor *)
+Theorem C18_prop_sets_build : forall D fs S,
+  wf_keys D -> (forall m, In m (d_msgs D) -> NoDup (map f_num (m_fields m))) ->
+  reflect D fs = Ok S ->
+  forall m r, In m (d_msgs D) -> lookup S (msg_key m) = Some (Linked r) ->
+  exists pfs, new_prop_set D S r m = Ok pfs.
+Proof. exact reflect_prop_sets_build. Qed.
+Print Assumptions C18_prop_sets_build.
+
+(* ---- last clause, second half: every client property, with its value set, builds (buildProperty),
+   for message types whose client properties are of kinds the codec has a factory for. [supported_b]
+   excludes exactly the known findings: arrays / maps whose items are any-typed or containers, and a
+   map schema on a field that is not a map (google.protobuf.Struct). The two hypotheses range over the
+   codec's own property set of the message and over the property sets of its exposed oneofs. *)
+Theorem C18_codec_usable_on_supported : forall D fs S,
+  wf_keys D -> (forall m, In m (d_msgs D) -> NoDup (map f_num (m_fields m))) ->
+  reflect D fs = Ok S ->
+  forall m r pfs, In m (d_msgs D) -> lookup S (msg_key m) = Some (Linked r) ->
+  new_prop_set D S r m = Ok pfs ->
+  (forall q f, In (q, Some f) pfs -> supported_b (p_schema q) f = true) ->
+  (forall q k n d ops opfs p2 f2, In (q, None) pfs -> p_schema q = FOneof k None None None ->
+     lookup S k = Some (Linked (ROneof n d ops)) -> new_prop_set D S (ROneof n d ops) m = Ok opfs ->
+     In (p2, Some f2) opfs -> supported_b (p_schema p2) f2 = true) ->
+  codec_classes D S m r = (0%N, 0%N).
+Proof. exact reflect_codec_usable. Qed.
+Print Assumptions C18_codec_usable_on_supported.
+
+(* ---- every clause of C18_full_statement at once, for descriptor sets satisfying wf_paths (split
+   names distinct, JSON names of fields and exposed oneofs distinct, field numbers distinct, enums
+   non-empty) and, for the last clause, message types within the codec's supported kinds *)
+Theorem C18_full_on_wf_paths : forall D fs,
+  wf_paths D ->
+  (forall s, reflect D fs <> Panic s) /\ reflect D fs <> OutOfFuel /\
+  forall S, reflect D fs = Ok S ->
+    set_consistent D S = true /\
+    forall m r, In m (d_msgs D) -> lookup S (msg_key m) = Some (Linked r) ->
+      exists pfs, new_prop_set D S r m = Ok pfs /\
+        ((forall q f, In (q, Some f) pfs -> supported_b (p_schema q) f = true) ->
+         (forall q k n d ops opfs p2 f2, In (q, None) pfs -> p_schema q = FOneof k None None None ->
+            lookup S k = Some (Linked (ROneof n d ops)) -> new_prop_set D S (ROneof n d ops) m = Ok opfs ->
+            In (p2, Some f2) opfs -> supported_b (p_schema p2) f2 = true) ->
+         codec_classes D S m r = (0%N, 0%N)).
+Proof. exact reflect_full_on_supported. Qed.
+Print Assumptions C18_full_on_wf_paths.
 
 (* ---- clause 2 of the property as a theorem, for every well-formed descriptor set whose field
    numbers are distinct per message (wf_paths; protoc guarantees it): after a successful reflection
@@ -244,3 +293,21 @@ Proof.
     + intros e m [<-|[]] [<-|[<-|[]]]; (split; [vm_compute; discriminate|intros o []]).
   - eexists. split; [vm_compute; reflexivity|]. split; vm_compute; reflexivity.
 Qed.
+
+(* the hypotheses of C18_codec_usable_on_supported are met by both messages of the example (an object
+   with a recursive field, an array of objects, a bool with a rule, an enum; an object that flattens
+   the first), and the conclusion computes *)
+Example C18_example_codec :
+  exists S, reflect ex_desc (d_files ex_desc) = Ok S /\
+    forallb (fun m =>
+      match lookup S (msg_key m) with
+      | Some (Linked r) =>
+          match new_prop_set ex_desc S r m with
+          | Ok pfs =>
+              forallb (fun pf => match pf with (q, Some f) => supported_b (p_schema q) f | (_, None) => true end) pfs &&
+              (match codec_classes ex_desc S m r with (0%N, 0%N) => true | _ => false end)
+          | _ => false
+          end
+      | _ => false
+      end) (d_msgs ex_desc) = true.
+Proof. eexists. split; vm_compute; reflexivity. Qed.
